@@ -5,6 +5,7 @@
   The difference step is the regenerated kernel `encFixedDiff`.
 -/
 import FlacModel.Model.Encode
+import FlacModel.Gen.Resid
 
 namespace Flac
 open Gen
@@ -38,5 +39,28 @@ def fixedPick (channel : List Int) : Nat × List Int :=
   let minFixed := (cands.getLast?.getD []).length
   let o := argminFirst (cands.map (absSumTail minFixed))
   (o, cands.getD o [])
+
+end Flac
+
+namespace Flac
+open Gen
+
+/-- `Partition::new` as far as the constant-block clause needs it: a partition whose residuals are all zero gets the zero-width
+    escape (flag regenerated from the source); otherwise whatever Rice / escape coding the heuristic parameter search settles on
+    (`coded`, a parameter of the model) -/
+def encPartition (coded : List Int → Partition) (rs : List Int) : Partition :=
+  if encZeroPartitionIsConstant && rs.all (· == 0) then .zero rs.length else coded rs
+
+/-- consecutive slices of the given sizes -/
+def sliceBy : List Nat → List Int → List (List Int)
+  | [], _ => []
+  | n :: ns, l => l.take n :: sliceBy ns (l.drop n)
+
+/-- the residual block `write_residuals` emits when its search settles on coding method `method` and partition order `po`
+    (both heuristic: the theorems quantify over them) for a block of `bs` samples and predictor order `order` -/
+def encResidual (coded : List Int → Partition) (method po bs order : Nat) (rs : List Int) : Option Residual :=
+  match encLayout bs order po with
+  | none => none
+  | some sizes => some { method := method, order := po, parts := (sliceBy sizes rs).map (encPartition coded) }
 
 end Flac
